@@ -38,6 +38,11 @@ def cases(tier, seed):
             yield ("roundtrip", K, p, U, 2 if p <= b["roundtrip_pairs_pmax"] else 1)
             if len(set(U)) > 2:
                 yield ("direct", K, p, U, b["small_alphabet_n"])
+        # three (four) distinct interior knots, simple or with one doubled knot: a remaining knot need not be adjacent to a removed one
+        for p, U in al.knotvectors(K, 2 if tier == "quick" else 3, 3 if tier == "quick" else 4, pmin=1, kmin=3, maxmult=2):
+            if tier == "quick" and sum(1 for k in set(U) if rb.mult(list(U), k) == 2 and U[0] < k < U[-1]) > 1:
+                continue
+            yield ("direct", K, p, U, 0)
 
 
 def describe(case):
